@@ -29,7 +29,7 @@ out = {
                 "cargo build --release --offline with the change: builds"],
         "demo_failure_tail": ver.get("demo_tail", "")[-400:],
     },
-    "checks": {c.split("=")[0]: c.split("=")[1] for c in caught},
+    "checks": {c.split("=", 1)[0]: c.split("=", 1)[1] for c in caught},
 }
 json.dump(out, open(os.path.join(dst, "meta.json"), "w"), indent=1)
 print("kept", dst)
